@@ -39,16 +39,17 @@ type Expected struct {
 
 // OracleOut is what one oracle process observed, in execution order.
 type OracleOut struct {
-	Order    string   `json:"order"`
-	IDs      []int    `json:"ids"`
-	Outcomes []string `json:"outcomes"`
-	Steps    []int64  `json:"steps,omitempty"`
-	Output   int64    `json:"output_bytes"` // bytes written to fd 1/2 during the calls
-	ArgMut   []string `json:"arg_mutated,omitempty"`
-	Hung     int      `json:"hung"`            // index (in IDs) of a call that never returned, -1 if none
-	Crash    string   `json:"crash,omitempty"` // filled by the driver: the oracle process died (Go runtime fatal error in library code)
-	CrashAt  int      `json:"crash_at,omitempty"`
-	SiteBits []uint8  `json:"site_bits,omitempty"` // instrumented pass: yield sites reached
+	Order     string   `json:"order"`
+	IDs       []int    `json:"ids"`
+	Outcomes  []string `json:"outcomes"`
+	Steps     []int64  `json:"steps,omitempty"`
+	Output    int64    `json:"output_bytes"` // bytes written to fd 1/2 during the calls
+	ArgMut    []string `json:"arg_mutated,omitempty"`
+	Hung      int      `json:"hung"`            // index (in IDs) of a call that never returned, -1 if none
+	Crash     string   `json:"crash,omitempty"` // filled by the driver: the oracle process died (Go runtime fatal error in library code)
+	CrashAt   int      `json:"crash_at,omitempty"`
+	SiteBits  []uint8  `json:"site_bits,omitempty"`            // instrumented pass: yield sites reached
+	Unmanaged int      `json:"unmanaged_goroutines,omitempty"` // goroutines the library started outside of calls (init)
 }
 
 // Event mirrors simrt.Event.
